@@ -158,9 +158,27 @@ def build(case):
 
 def run_case(case):
     program = case.get('program') or build(case)
+    result = run_once(case, program, None)
+    shared = result.pop('shared')
+    if shared and not result['violations']:
+        # the date-condition objects live on: the same program once more, in a new simulation
+        # (whose clock starts before dates that were reached in the first one), with them
+        again = run_once(case, program, shared)
+        again.pop('shared')
+        result['evals'] += 1
+        result['stats']['reruns_with_used_conditions'] = 1
+        result['stats']['waits_checked'] += again['stats']['waits_checked']
+        for vio in again['violations']:
+            vio['msg'] = 'second run re-using the date conditions of the first: ' + vio['msg']
+        result['violations'] += again['violations']
+    return result
+
+
+def run_once(case, program, shared):
     model = ClockModel(program)
     sess = Session()
-    env, outcome = execute(program, sess)
+    env, outcome = execute(program, sess,
+                           (lambda env: env.shared.update(shared)) if shared else None)
     violations = [dict(v) for v in sess.violations
                   if not v['mechanism'].startswith(('c04:', 'c05:', 'c06:'))]
     checked = 0
@@ -209,4 +227,5 @@ def run_case(case):
     if case['index'] < 16:
         sample = {'program': program, 'expect': {k: list(v) for k, v in model.expect.items()},
                   'events': [list(map(str, ev)) for ev in sess.events[:30]]}
-    return {'evals': 1, 'sigs': sigs, 'stats': stats, 'violations': violations, 'sample': sample}
+    return {'evals': 1, 'sigs': sigs, 'stats': stats, 'violations': violations, 'sample': sample,
+            'shared': dict(env.shared)}
